@@ -20,6 +20,9 @@ CHECKS = {
  "C05": dict(engine="E1", technique="exhaustive enumeration of the sinusoid basis x ADC tables, pulse x table x filter grids, every (2nd) spike depth, all 3^6 groupings",
              text="The ADC alignment is run on every below-Nyquist DFT bin x 2 phases x 4 ADC tables (basis of a linear operator); destripe/destripe_lfp on 8 (4) disjoint band-limited pulses x 2 amplitudes x 4 tables x k-filter/CAR must attenuate by >= 40 dB; a model spike at every 2nd (thorough: every) depth x NP1/NP2 x both filters must keep >= 90 %; outside-brain rows must be untouched and must not influence inside rows for top blocks 0..40; car leaves zero median/mean per group for all 3^6 groupings; kfilt/fk/car with collections equal each group alone with the same settings; agc data x gain = input.",
              note="spike/label backgrounds are fixed seeded content; stripes periodic in the window with a centred envelope", ref="3/C05"),
+ "C06": dict(engine="E3+E1", technique="stateless exploration of the worker bodies under a controlled baton scheduler: every Mazurkiewicz trace (value-aware independence) of the shared-file operations is executed on the real code",
+             text="The real decompress_destripe_cbin runs with joblib.Parallel replaced by a scheduler that runs the worker bodies as baton-passing threads with a scheduling point before every write to a shared file (file proxies see ndarray.tofile through flush/tell/seek; the saturation memmap through __setitem__). For 44 configurations (3 batch sizes x recording lengths on every worker/batch seam, options: padding, whitening, nc_out, append, channel rejection, k-filter, cbin input, short recordings with many workers) and every worker count 2..5 (thorough 2..8) the footprint is recorded, overlapping writes are classified by value, all acyclic orientations of the conflicting pairs are linearised and executed (plus reversed and round-robin orders), and every result is compared byte for byte with the one-worker run; the one-worker run is compared with an in-memory batch-wise reference (1 LSB), the sync column with the source, file sizes and QC row counts with the formulas; the write log must cover every output byte with agreeing writers.",
+             note="pyfftw replaced by a NumPy/SciPy shim; threads instead of processes (workers share only files: asserted by read-forbidding proxies and footprint equality across schedules); one real-joblib run as conformance point; saturation file content at batch seams is not compared (only its length)", ref="3/C06"),
  "C07": dict(engine="E1", technique="exhaustive enumeration of lengths x all integer shifts on the full impulse basis; fractional shifts on the below-Nyquist sinusoid basis",
              text="For every length 2..300 (thorough: plus primes, powers of 2 and 3 and neighbours up to 2048) and both dtypes, every integer shift in (-n, n) is applied to the identity matrix and compared with the circular roll; axes of 2-D/3-D arrays, per-trace shifts, additivity pairs, fractional delays of every below-Nyquist cos/sin bin, spectrum input, input immutability, shape and dtype are checked. Delay estimation is checked on a 0.05 grid of shifts in [-5,5] for the model spike and band-limited packets, shift_waveform on clusters, parabolic_max on all 3-point patterns.",
              note="linearity in the signal lets the impulse basis decide all signals; delay-estimation waveforms are a fixed family sampled >= 10 times per cycle", ref="3/C07"),
